@@ -329,6 +329,9 @@ fn small(case: &SmallCase, obs: &mut Obs) -> PropResult {
 	if let Some(size) = crate::classfile::gen::add_big_attribute(&mut model, case.big) {
 		obs.label(if size > 65535 { "attribute_payload>65535" } else { "attribute_payload<=65535" });
 	}
+	if let Some(table) = crate::classfile::gen::inflate_table(&mut model, case.big) {
+		obs.label(format!("table_with_300_entries:{table}"));
+	}
 	let enc = match encode(&model, &case.ch) {
 		Ok(e) => e,
 		Err(EncodeError::BranchTooFar { .. }) | Err(EncodeError::CodeTooLarge(_)) | Err(EncodeError::PoolTooLarge) => {
